@@ -191,6 +191,38 @@ func call(f func()) (panicMsg string) {
 // ---------------------------------------------------------------------------------------------------------
 // families on Date
 
+// apply evaluates a ± span. `-` goes through Date.Subtract(Value), the method behind Date#-, which can report an
+// error; `+` goes through Date.AddDateSpan, which cannot (the range clause for + is checked at the Elk level).
+func apply(da value.Date, op string, span value.DateSpan) (got value.Date, err value.Value, p string) {
+	err = value.Undefined
+	p = call(func() {
+		if op == "+" {
+			got = da.AddDateSpan(span)
+			return
+		}
+		var v value.Value
+		v, err = da.Subtract(span.ToValue())
+		if err.IsUndefined() {
+			got = v.AsDate()
+		}
+	})
+	return
+}
+
+// outOfRange handles a calendar result outside the year range; reports whether the case is finished.
+func outOfRange(r *engine.R, op, expr string, year int64, got value.Date, err value.Value, p string) {
+	switch {
+	case p != "":
+		r.Outcome("out of range: panic")
+	case !err.IsUndefined():
+		r.Outcome("out of range: error")
+	case op == "+":
+		r.Count("out_of_range_not_asserted_at_go_api(+ has no error channel; see range-elk)", 1)
+	default:
+		r.Violation(sigRange, fmt.Sprintf("%s: the calendar result is year %d (outside %d..%d) but the operation returned %s", expr, year, minYear, maxYear, civilOf(got)), expr)
+	}
+}
+
 func checkDays(r *engine.R, a civil) {
 	da := mk(a)
 	z := daysFromCivil(a.y, a.m, a.d)
@@ -198,28 +230,23 @@ func checkDays(r *engine.R, a civil) {
 		wy, wm, wd := civilFromDays(z + n)
 		want := civil{wy, wm, wd}
 		for _, op := range []string{"+", "-"} {
-			var got value.Date
-			p := call(func() {
-				if op == "+" {
-					got = da.AddDateSpan(value.MakeDateSpan(0, 0, int(n)))
-				} else {
-					got = da.SubtractDateSpan(value.MakeDateSpan(0, 0, int(-n)))
-				}
-			})
+			sp := value.MakeDateSpan(0, 0, int(n))
+			if op == "-" {
+				sp = value.MakeDateSpan(0, 0, int(-n))
+			}
+			got, err, p := apply(da, op, sp)
 			expr := fmt.Sprintf("%s %s Date::Span(0, 0, %d)", a, op, map[string]int64{"+": n, "-": -n}[op])
 			r.Eval(1)
 			if n != 0 {
 				r.NT(1)
 			}
 			switch {
-			case p != "":
-				if inRange(want.y) {
-					r.Violation("Date "+op+" days: Go panic", expr+": "+p, expr)
-				} else {
-					r.Outcome("out of range: panic")
-				}
 			case !inRange(want.y):
-				r.Violation(sigRange, fmt.Sprintf("%s: the calendar result is year %d (outside %d..%d) but the operation returned %s", expr, want.y, minYear, maxYear, civilOf(got)), expr)
+				outOfRange(r, op, expr, want.y, got, err, p)
+			case p != "":
+				r.Violation("Date "+op+" days: Go panic", expr+": "+p, expr)
+			case !err.IsUndefined():
+				r.Violation("Date "+op+" days: unexpected error", expr+": "+err.Inspect(), expr)
 			case civilOf(got) != want:
 				r.Violation(wrongSig("Date", op, "days", a.y, want.y, n), fmt.Sprintf("%s: expected %s, got %s", expr, want, civilOf(got)), expr)
 			default:
@@ -246,27 +273,22 @@ func checkMonths(r *engine.R, a civil) {
 		ry, rm, rd := civilFromDays(daysFromCivil(ty, tm, 1) + a.d - 1)
 		roll := civil{ry, rm, rd}
 		for _, op := range []string{"+", "-"} {
-			var got value.Date
-			p := call(func() {
-				if op == "+" {
-					got = da.AddDateSpan(value.MakeDateSpan(0, int(k), 0))
-				} else {
-					got = da.SubtractDateSpan(value.MakeDateSpan(0, int(-k), 0))
-				}
-			})
+			sp := value.MakeDateSpan(0, int(k), 0)
+			if op == "-" {
+				sp = value.MakeDateSpan(0, int(-k), 0)
+			}
+			got, err, p := apply(da, op, sp)
 			expr := fmt.Sprintf("%s %s Date::Span(0, %d, 0)", a, op, map[string]int64{"+": k, "-": -k}[op])
 			r.Eval(1)
 			r.NT(1)
 			g := civilOf(got)
 			switch {
-			case p != "":
-				if inRange(ty) {
-					r.Violation("Date "+op+" months: Go panic", expr+": "+p, expr)
-				} else {
-					r.Outcome("out of range: panic")
-				}
 			case !inRange(ty):
-				r.Violation(sigRange, fmt.Sprintf("%s: the calendar result is year %d (outside %d..%d) but the operation returned %s", expr, ty, minYear, maxYear, g), expr)
+				outOfRange(r, op, expr, ty, got, err, p)
+			case p != "":
+				r.Violation("Date "+op+" months: Go panic", expr+": "+p, expr)
+			case !err.IsUndefined():
+				r.Violation("Date "+op+" months: unexpected error", expr+": "+err.Inspect(), expr)
 			case a.d <= dim:
 				if g != exact {
 					r.Violation(wrongSig("Date", op, "months (day of month exists in the target month)", a.y, ty, 0), fmt.Sprintf("%s: expected %s, got %s", expr, exact, g), expr)
@@ -865,6 +887,55 @@ func checkElk(r *engine.R) {
 }
 
 // elkSig files an Elk-level failure under the signature of the same defect at the Go API.
+// checkRangeElk: every boundary date ± span whose calendar result is outside the year range, as one Elk program;
+// each line must print ERR (an Elk error was raised and caught), never a date.
+func checkRangeElk(r *engine.R, ds []civil) {
+	var b strings.Builder
+	b.WriteString("def t(d: Date, s: Date::Span): String\n  do\n    x := d + s\n    x.to_string\n  catch e\n    \"ERR\"\n  end\nend\n")
+	b.WriteString("def u(d: Date, s: Date::Span): String\n  do\n    x := d - s\n    x.to_string\n  catch e\n    \"ERR\"\n  end\nend\n")
+	var exprs []string
+	for _, a := range ds {
+		z := daysFromCivil(a.y, a.m, a.d)
+		for _, n := range daySpans {
+			if y, _, _ := civilFromDays(z + n); inRange(y) {
+				continue
+			}
+			fmt.Fprintf(&b, "println(t(Date(%d, %d, %d), Date::Span(0, 0, %d)))\nprintln(u(Date(%d, %d, %d), Date::Span(0, 0, %d)))\n", a.y, a.m, a.d, n, a.y, a.m, a.d, -n)
+			exprs = append(exprs, fmt.Sprintf("%s + Date::Span(0, 0, %d)", a, n), fmt.Sprintf("%s - Date::Span(0, 0, %d)", a, -n))
+		}
+		for _, k := range monthSpans {
+			if y, _ := monthTarget(a, k); inRange(y) {
+				continue
+			}
+			fmt.Fprintf(&b, "println(t(Date(%d, %d, %d), Date::Span(0, %d, 0)))\nprintln(u(Date(%d, %d, %d), Date::Span(0, %d, 0)))\n", a.y, a.m, a.d, k, a.y, a.m, a.d, -k)
+			exprs = append(exprs, fmt.Sprintf("%s + Date::Span(0, %d, 0)", a, k), fmt.Sprintf("%s - Date::Span(0, %d, 0)", a, -k))
+		}
+	}
+	if len(exprs) == 0 {
+		return
+	}
+	res := elkrun.Run(b.String(), nil)
+	lines := strings.Split(strings.TrimSpace(res.Stdout), "\n")
+	if res.Rejected || res.Panic != "" || res.Err != "" || len(lines) != len(exprs) {
+		if res.Panic != "" {
+			r.Violation("Elk level: Go panic "+res.PanicSig, res.Stack, nil)
+			return
+		}
+		r.Note("range-elk program did not run to the end: " + res.Outcome() + " " + res.Diags)
+		r.Capped("the Elk-level range program failed")
+		return
+	}
+	for i, ln := range lines {
+		r.Eval(1)
+		r.NT(1)
+		if ln != "ERR" {
+			r.Violation(sigRange, fmt.Sprintf("Elk level: %s printed %q, expected an error", exprs[i], ln), exprs[i])
+		} else {
+			r.Outcome("elk: error raised")
+		}
+	}
+}
+
 func elkSig(code string) string {
 	switch {
 	case strings.Contains(code, "Date(-5"):
@@ -898,6 +969,7 @@ func run(c *engine.Ctx) {
 				checkMonths(r, a)
 			}
 		})
+		c.Case(fmt.Sprintf("range-elk/%d", y), func(r *engine.R) { checkRangeElk(r, ds) })
 		c.Case(fmt.Sprintf("roundtrip/%d", y), func(r *engine.R) {
 			for _, a := range ds {
 				checkRoundTripDate(r, a)
@@ -957,7 +1029,7 @@ func main() {
 		Rule: "dates: years {±4194304 boundary, -401, -400, -101, -100, -5, -4, -1, 0, 1, 4, 100, 400, 1582, 1970, 2024, 9999, 10000} × 12 months × days {1, 28, 29, 30, 31} (valid ones); " +
 			"each date ± day spans {0, ±1, ±31, ±365, ±366, ±106751, ±106752, ±146097, ±(2^31-1)} and ± month spans {±1, ±12, ±13, ±48, ±4800, ±full range}; every ordered pair of dates for a + (b - a) == b; " +
 			"every date × to_string and 17 strftime formats parsed back; datetimes = 10 years × 4 months × days {1, 28, 29, 31} × 3 times of day × 3 zone offsets with time/day/month spans, all ordered pairs for diff, 6 formats; " +
-			"span to_string → parse over component boundary values; the same Date + days under TZ=Europe/Warsaw and America/New_York for every day of 1970 and 2024; 11 Elk-level programs. " +
+			"span to_string → parse over component boundary values; the same Date + days under TZ=Europe/Warsaw and America/New_York for every day of 1970 and 2024; 11 Elk-level programs plus one Elk program per year with every date ± span whose result is outside the year range (an error is required). " +
 			"Oracle: Hinnant's days_from_civil/civil_from_days in int64; non-trivial = every evaluation whose span is non-zero / whose operands differ",
 		Assume: []string{
 			"when the day of month does not exist in the target month, clamping and rolling over are both accepted (not documented)",
